@@ -25,9 +25,9 @@ func init() {
 }
 
 type avlAnchors struct {
-	c                               *Ctx
-	nValue, nLeft, nRight, nHeight  *types.Var
-	tCompare, tRoot, tCount         *types.Var
+	c                              *Ctx
+	nValue, nLeft, nRight, nHeight *types.Var
+	tCompare, tRoot, tCount        *types.Var
 }
 
 func avlResolve(c *Ctx, rule string) *avlAnchors {
